@@ -138,7 +138,7 @@ def run(ctx):
     ):
         ctx.rule(rid, text)
     from . import rulecoll
-    rulecoll.invariants(ctx, "R10", which=("rc2", "rc3", "rc4"))
+    rulecoll.invariants(ctx, "R10", which=("rc2", "rc3", "rc4", "rc5"))
     # `sg run` / `sg scan` search every file the library would: which files reach the scan is decided by path/config filters and by
     # read_file alone (the C17 R5 obligations: walker filters, no metadata-based skip, one reader)
     from . import c17
@@ -879,7 +879,95 @@ def strictness_facts(ctx):
                 if rv[0] == "un" and rv[1] == "Not":
                     if any(o.kind == "param" and o.ref == 2 for o in mt.trace_operand(rv[2])):
                         S.add(v)
+    # U: a MatchedBoth exit BEFORE the match over self (common to every strictness) that an unnamed pattern token reaches without the
+    # text comparison: `is_kind_matched && (!is_named || text == candidate.text())`
+    U = False
+    text_eq = set()
+    for c in mt.calls:
+        if c.name in ("eq", "ne") and any(o.kind == "param" and o.ref == 3 for a in c.args for o in mt.trace_operand(a)):
+            text_eq.add(c.bb)
+    early = [b for b in sorted(mt.live_blocks) if not mt.dominates(bi, b) and any(
+        s[0] == "A" and s[1][0] == 0 and s[2][0] == "agg" and s[2][1].get("variant") == "MatchedBoth" for s in mt.blocks[b]["s"])]
+    for b in sorted(mt.live_blocks):
+        pol = _bool_switch(mt, b)
+        if not pol:
+            continue
+        op, f_edge, t_edge = pol
+        if not any(o.kind == "param" and o.ref == 2 and not o.proj for o in mt.trace_operand(op)):
+            continue
+        if f_edge not in text_eq and any(e == f_edge or e in set(mt.reachable_from(f_edge, stop=text_eq | {bi})) for e in early):
+            U = True
+    ctx.prog.__dict__["_c01_U"] = U
     return K, S
+
+
+def _bool_switch(f, b):
+    """(operand, target when the operand is false, target when it is true) of a two-way switch over a bool, seen through `!x`"""
+    t = f.blocks[b]["t"]
+    if t[0] != "switch" or len(t[2]) != 1 or t[1][0] == "k":
+        return None
+    op = t[1]
+    if op[1][1] or f.locals[op[1][0]] != "bool":
+        return None
+    val, tgt = t[2][0]
+    if val not in ("0", "1"):
+        return None
+    f_edge, t_edge = (tgt, t[3]) if val == "0" else (t[3], tgt)
+    for _ in range(4):
+        d = f.find_def_in_block(b, op[1][0]) if op[0] != "k" and not op[1][1] else None
+        if d is not None and d[0] == "un" and d[1] == "Not" and d[2][0] != "k":
+            op = d[2]
+            f_edge, t_edge = t_edge, f_edge
+        else:
+            break
+    return op, f_edge, t_edge
+
+
+def unnamed_text_possible(prog, g, consts, depth=0):
+    """Can `g` (a PatternNode literal routine), called with the bool parameters fixed as in `consts` {param: bool}, hand back the text
+    of an UNNAMED Terminal?  Reachability of the blocks that read Terminal.text, after pruning (a) switches over a fixed parameter to
+    the edge taken and (b) the `is_named == true` edge of switches over Terminal.is_named."""
+    def is_field(o, name):
+        return any(isinstance(p_, str) and p_.startswith(".%s|" % name) and "PatternNode::Terminal" in p_ for p_ in o.proj)
+    succ = {}
+    for b in g.live_blocks:
+        out = list(g.term_succs(b))
+        pol = _bool_switch(g, b)
+        if pol:
+            op, f_edge, t_edge = pol
+            org = g.trace_operand(op)
+            if org and all(o.kind == "param" and not o.proj and o.ref in consts for o in org) and len({consts[o.ref] for o in org}) == 1:
+                out = [t_edge if consts[org[0].ref] else f_edge]
+            elif org and all(is_field(o, "is_named") for o in org):
+                out = [f_edge]
+        succ[b] = out
+    seen, todo = set(), [0]
+    while todo:
+        b = todo.pop()
+        if b in seen:
+            continue
+        seen.add(b)
+        todo += succ.get(b, [])
+    for b in seen:
+        for s in g.blocks[b]["s"]:
+            if s[0] == "A" and s[2][0] in ("ref", "use"):
+                pl = s[2][2] if s[2][0] == "ref" else (s[2][1][1] if s[2][1][0] != "k" else None)
+                if pl and any(isinstance(p_, str) and p_.startswith(".text|") and "PatternNode::Terminal" in p_ for p_ in pl[1]):
+                    return True
+    if depth < 3:
+        for c in g.calls:
+            if c.bb in seen and "PatternNode" in c.best and "fixed_string" in c.name and c.best != g.id and c.best in prog.fns:
+                sub = {}
+                for i, a in enumerate(c.args):
+                    if a[0] == "k" and a[1].get("ty") == "bool":
+                        sub[i + 1] = a[1].get("bits") == "1"
+                    elif a[0] != "k":
+                        org = g.trace_operand(a)
+                        if org and all(o.kind == "param" and not o.proj and o.ref in consts for o in org) and len({consts[o.ref] for o in org}) == 1:
+                            sub[i + 1] = consts[org[0].ref]
+                if unnamed_text_possible(prog, prog.fns[c.best], sub, depth + 1):
+                    return True
+    return False
 
 
 def r8(ctx):
@@ -902,7 +990,22 @@ def r8(ctx):
     if facts is None:
         return
     K, S = facts
-    ctx.note("derived from match_terminal: kind-only match under %s; unnamed pattern tokens skippable under %s" % (sorted(K), sorted(S)))
+    U = prog.__dict__.get("_c01_U", False)
+    ctx.note("derived from match_terminal: kind-only match under %s; unnamed pattern tokens skippable under %s; unnamed pattern tokens matched by kind alone before the strictness is consulted: %s" % (sorted(K), sorted(S), U))
+
+    def takes_unnamed_text(text_calls):
+        bad = []
+        for c2 in text_calls:
+            g = prog.fns.get(c2.best)
+            if g is None:
+                continue
+            consts = {i + 1: a[1].get("bits") == "1" for i, a in enumerate(c2.args) if a[0] == "k" and a[1].get("ty") == "bool"}
+            if unnamed_text_possible(prog, g, consts):
+                bad.append(c2)
+        return bad
+    UNNAMED = ("unnamed pattern tokens (keywords, punctuation) match by kind alone under every strictness (match_terminal: `!is_named || text == candidate.text()`), "
+               "but this arm takes the text of unnamed tokens too as the literal every file must contain: a file that spells the token differently "
+               "(PHP `ECHO 1;` for the pattern `echo $A`) is skipped although it matches")
     ctx.ob("R8", "match_terminal facts", bool(K) and bool(S), "read from match_terminal's CFG: MatchedBoth without text comparison under %s; skip_goal = !is_named under %s" % (sorted(K), sorted(S)), nontrivial=True)
     for c in sites:
         f = c.fn
@@ -937,7 +1040,12 @@ def r8(ctx):
                     g = prog.fns.get(c2.best)
                     if g and reads_field(prog, g, "is_named"):
                         ok = True
+                if ok and U and takes_unnamed_text(text_calls):
+                    ok = False
                 ctx.ob("R8", "Pattern::fixed_string/%s" % v, ok or not text_calls, "strictness %s may skip unnamed pattern tokens: arm %s" % (v, "uses a routine that distinguishes is_named" if ok else ("contributes no literal" if not text_calls else "takes text of unnamed tokens too")), where=tgt.loc())
+            elif U:
+                bad = takes_unnamed_text(text_calls)
+                ctx.ob("R8", "Pattern::fixed_string/%s" % v, not bad, "strictness %s: the literal is drawn from named tokens only" % v if not bad else UNNAMED, where=tgt.loc())
             else:
                 ctx.ob("R8", "Pattern::fixed_string/%s" % v, True, "strictness %s compares the text of every pattern terminal" % v, where=tgt.loc(), nontrivial=False)
 
